@@ -136,6 +136,14 @@ fn run_pq(ops: &[OpRec]) -> Vec<Value> {
                 }
                 out.push(json!([good]));
             }
+            "ballast" => {
+                // arg inserts with key 9 in one recorded step
+                for _ in 0..o.arg {
+                    q.insert(9, n);
+                    n += 1;
+                }
+                out.push(json!([o.arg]));
+            }
             other => panic!("unknown op {}", other),
         }
     }
@@ -174,6 +182,13 @@ fn run_ipq(ops: &[OpRec]) -> Vec<Value> {
                     n += 1;
                 }
                 out.push(json!([good]));
+            }
+            "ballast" => {
+                for _ in 0..o.arg {
+                    handles.push(q.insert(9, n));
+                    n += 1;
+                }
+                out.push(json!([o.arg]));
             }
             "extract" => out.push(opt(q.extract(handles[(o.arg - 1) as usize]))),
             other => panic!("unknown op {}", other),
